@@ -439,6 +439,14 @@ fragment VF on Query { scalarArg(x: $d, z: $undefined) user(id: 1, one: {b: $a})
 	`{ ...G } fragment G on Query { __schema { ...G } ...H } fragment H on Query { __schema { types { fields { type { fields { type { fields { name } } } } } } } }`,
 	`subscription { ...A ...B } fragment A on Subscription { newUser { id } ...Missing tick } fragment B on Subscription { ... { tick ...Missing newUser { id } } t2: tick }`,
 	`query ($v: Int = 1e999, $w: Float = 1e999, $x: [Int] = [1, 99999999999999999999]) { scalarArg(x: $v) search(q: "a", f: $w, ll: [$x]) { __typename } }`,
+	// the repaired branches of ValuesOfCorrectType: Int is 32 bits, Float is finite, ID / Float take any integer,
+	// an object literal where a scalar or an enum is expected, the @oneOf null message names the key written
+	`{ a: scalarArg(x: 2147483647, y: -2147483648, z: 2147483648) b: scalarArg(x: -2147483649, z: 9223372036854775808) c: scalarArg(x: 99999999999999999999, z: -99999999999999999999) ll: search(q: "a", ll: [[2147483648, 1], [99999999999999999999]]) { __typename } }`,
+	`{ a: search(q: "a", f: 1e308) { __typename } b: search(q: "a", f: 1e309) { __typename } c: search(q: "a", f: -1.7976931348623159e308) { __typename } d: search(q: "a", f: 1.7976931348623157e308) { __typename } e: search(q: "a", f: 99999999999999999999) { __typename } f: search(q: "a", f: 4.9e-400) { __typename } g: search(q: "a", f: 0e999) { __typename } }`,
+	`{ a: node(id: 99999999999999999999) { id } b: node(id: 1e999) { id } c: user(id: 9223372036854775808, in: {req: 2147483648, l: [99999999999999999999], date: 1e999, reqd: 1e999}) { id } d: search(q: "a", d: 99999999999999999999) { __typename } e: search(q: "a", d: [1e999, {k: -1e999}]) { __typename } }`,
+	`{ a: scalarArg(x: {a: 1}) b: user(id: {a: 1}, color: {RED: 1}) { id } c: search(q: {a: "x"}, f: {}, b: {b: true}, l: {a: 1}, ll: [{a: 1}, [{}]]) { __typename } d: user(id: 1, in: {req: {a: 1}, col: {a: RED}, opt: {}, date: {ok: 1}}) { id } }`,
+	`{ a: user(id: 1, one: {b: null}) { id } b: user(id: 2, one: {c: null}) { id } c: user(id: 3, one: {zzz: null}) { id } d: user(id: 4, one: {}) { id } e: user(id: 5, one: {a: null, b: null}) { id } f: user(id: 6, in: {req: 1, one: {c: null}}) { id } }`,
+	`mutation ($n: Int = 2147483648, $f: Float = 1e999, $i: ID = 99999999999999999999, $o: One = {c: null}, $c: Color = {a: 1}) { setColor(c: $c, one: $o) touch(d: 1e999) }`,
 }
 
 // ValidateSeedPairs: (schema SDL, document) pairs from the repository's own cases plus the extra schema.
